@@ -13,6 +13,7 @@ import (
 	"unicode/utf8"
 
 	"github.com/siglens/siglens/pkg/config"
+	"github.com/siglens/siglens/pkg/dashboards"
 	usq "github.com/siglens/siglens/pkg/usersavedqueries"
 	vtable "github.com/siglens/siglens/pkg/virtualtable"
 	"github.com/valyala/fasthttp"
@@ -41,6 +42,7 @@ type kvOp struct {
 	t        int
 	k, k2, v string
 	form     byte // 0: bare key, '=': k=v, '>': k>k2, 'l': no key, 'R'
+	id, pid  int  // dash store: object id, parent id (-1 = not given)
 }
 
 func kvHexLower(s string) (string, bool) {
@@ -107,7 +109,7 @@ func kvParseTok(s string) (kvOp, bool) {
 }
 
 type kvStore interface {
-	accepts(op kvOp) bool
+	parse(tok string) (kvOp, bool)
 	boot() error
 	apply(op kvOp) string
 	restart() error
@@ -117,6 +119,8 @@ type kvStore interface {
 	// shadow of tenant t: what the acknowledged writes say the reads must return
 	shadowOf(t int) map[string]string
 }
+
+var kvCurRun *kvRun // the line being executed (stores report immediate property failures through it)
 
 type kvRun struct {
 	store   string
@@ -137,8 +141,8 @@ func (r *kvRun) fail(class, msg string) {
 }
 
 func kvShow(s string) string {
-	if len(s) > 40 {
-		return fmt.Sprintf("%q…(%d bytes)", s[:40], len(s))
+	if len(s) > 100 {
+		return fmt.Sprintf("%q…(%d bytes)", s[:100], len(s))
 	}
 	return fmt.Sprintf("%q", s)
 }
@@ -173,10 +177,10 @@ func kvDiff(want, got map[string]string) (class, msg string) {
 // audit: every tenant is read back and compared with the shadow (the property statement itself)
 func (r *kvRun) audit(st kvStore, when string) {
 	for t := range kvOrgs {
+		got, err := st.readAll(t) // always read (a read may have side effects the model mirrors), compare unless tainted
 		if r.tainted[t] {
 			continue
 		}
-		got, err := st.readAll(t)
 		if err != nil {
 			r.fail("read-error", fmt.Sprintf("%s: reading tenant %d failed: %v", when, kvOrgs[t], err))
 			r.tainted[t] = true
@@ -192,9 +196,9 @@ func (r *kvRun) audit(st kvStore, when string) {
 			class += "-after-restart"
 		case r.lastOp.form != 'R' && r.lastOp.t != t:
 			class = "other-tenant-disturbed"
-		case class == "lost" && (r.lastOp.kind == 'c' || r.lastOp.kind == 'u'):
+		case class == "lost" && (r.lastOp.kind == 'c' || r.lastOp.kind == 'u' || r.lastOp.kind == 'f'):
 			class = "ok-but-not-stored"
-		case class == "ghost" && r.lastOp.kind == 'd':
+		case class == "ghost" && (r.lastOp.kind == 'd' || r.lastOp.kind == 'x'):
 			class = "survives-delete"
 		case class == "ghost" && r.lastOp.kind == 'r':
 			class = "old-name-survives-rename"
@@ -230,6 +234,8 @@ func kvNewStore(name string) kvStore {
 		return &kvUsq{}
 	case "alias":
 		return &kvAlias{}
+	case "dash":
+		return &kvDash{}
 	}
 	return nil
 }
@@ -245,8 +251,8 @@ func execKV(line string) Result {
 	}
 	var ops []kvOp
 	for _, tok := range f[2:] {
-		op, ok := kvParseTok(tok)
-		if !ok || !st.accepts(op) {
+		op, ok := st.parse(tok)
+		if !ok {
 			return Result{Out: "bad-op"}
 		}
 		ops = append(ops, op)
@@ -262,6 +268,7 @@ func execKV(line string) Result {
 	}
 	var res Result
 	run := &kvRun{store: f[1], res: &res, seen: map[string]bool{}}
+	kvCurRun = run
 	res.Tags = append(res.Tags, "store="+f[1])
 	var toks []string
 	tenants := map[int]bool{}
@@ -284,8 +291,8 @@ func execKV(line string) Result {
 		tok := st.apply(op)
 		toks = append(toks, tok)
 		switch op.kind {
-		case 'c', 'u', 'r', 'd':
-			if tok == "ok" || strings.HasPrefix(tok, "ok:") {
+		case 'c', 'u', 'r', 'd', 'f', 'x', 'v':
+			if tok == "ok" || strings.HasPrefix(tok, "ok:") || tok == "0" || tok == "1" {
 				writes++
 			}
 		default:
@@ -347,7 +354,7 @@ var kvVals = []string{"v1", "v2", "v3", "", " ", "* | stats count", "ünï", "{\
 func kvPick(r *rand.Rand, pool []string) string { return pool[r.Intn(len(pool))] }
 
 func genKV(r *rand.Rand, n int, tier string) []string {
-	stores := []string{"usq", "alias"}
+	stores := []string{"usq", "alias", "dash"}
 	var out []string
 	for i := 0; i < n; i++ {
 		store := stores[i%len(stores)]
@@ -359,6 +366,10 @@ func genKV(r *rand.Rand, n int, tier string) []string {
 				"kv " + store + " r0.61>62", "kv " + store + " q0.61=62",
 			}
 			out = append(out, bad[r.Intn(len(bad))])
+			continue
+		}
+		if store == "dash" {
+			out = append(out, genDashLine(r))
 			continue
 		}
 		out = append(out, genKVLine(r, store))
@@ -487,6 +498,11 @@ type kvUsq struct {
 	shadow [3]map[string]string
 }
 
+func (s *kvUsq) parse(tok string) (kvOp, bool) {
+	op, ok := kvParseTok(tok)
+	return op, ok && s.accepts(op)
+}
+
 func (s *kvUsq) accepts(op kvOp) bool {
 	switch op.kind {
 	case 'c', 'u':
@@ -609,6 +625,11 @@ func (s *kvUsq) apply(op kvOp) string {
 type kvAlias struct {
 	shadow  [3]map[string]string
 	touched [3]map[string]bool // index names ever used (GetAliases is asked for each)
+}
+
+func (s *kvAlias) parse(tok string) (kvOp, bool) {
+	op, ok := kvParseTok(tok)
+	return op, ok && s.accepts(op)
 }
 
 func (s *kvAlias) accepts(op kvOp) bool {
@@ -774,4 +795,580 @@ func (s *kvAlias) apply(op kvOp) string {
 		return kvHex(idx)
 	}
 	return "bad-op"
+}
+
+// ---------------------------------------------------------------- dashboards and folders
+
+// kvDash drives pkg/dashboards (functions underneath the HTTP handlers, via the overlay).  Ids in the op line
+// are numbers: 0 = root folder, n = the n-th object created by the line (the harness numbers the UUIDs in
+// creation order); a number not created yet stands for an id nobody has.
+//   c<t>.<name>=<payload>[@<pid>] create dashboard    f<t>.<name>[@<pid>] create folder
+//   u<t>.<id>=<name>:<payload>[@<pid>] update dashboard (move with @)    r<t>.<id>><name>[@<pid>] rename/move folder
+//   d<t>.<id> delete dashboard   x<t>.<id> delete folder   g<t>.<id> get dashboard   k<t>.<id> folder contents
+//   l<t> list all items          v<t>.<id> toggle favorite
+type kvDashObj struct {
+	folder        bool
+	name, payload string
+	parent        int
+	fav           bool
+}
+
+type kvDash struct {
+	uuid   []string       // number → uuid (index 0 = root)
+	num    map[string]int // uuid → number
+	shadow [3]map[int]*kvDashObj
+}
+
+func kvDec(s string) (int, bool) {
+	if s == "" || len(s) > 6 {
+		return 0, false
+	}
+	for i := 0; i < len(s); i++ {
+		if s[i] < '0' || s[i] > '9' {
+			return 0, false
+		}
+	}
+	n, err := strconv.Atoi(s)
+	return n, err == nil
+}
+
+func kvSplitAt(s string) (string, int, bool) {
+	parts := strings.Split(s, "@")
+	switch len(parts) {
+	case 1:
+		return s, -1, true
+	case 2:
+		p, ok := kvDec(parts[1])
+		return parts[0], p, ok
+	}
+	return "", 0, false
+}
+
+func kvSplit1(s string, sep string) (string, string, bool) {
+	parts := strings.Split(s, sep)
+	if len(parts) != 2 {
+		return "", "", false
+	}
+	return parts[0], parts[1], true
+}
+
+func (s *kvDash) parse(tok string) (kvOp, bool) {
+	if tok == "R" {
+		return kvOp{kind: 'R', form: 'R'}, true
+	}
+	if len(tok) == 2 && tok[0] == 'l' {
+		if tok[1] < '0' || tok[1] > '2' {
+			return kvOp{}, false
+		}
+		return kvOp{kind: 'l', t: int(tok[1] - '0'), form: 'l'}, true
+	}
+	if len(tok) < 3 || tok[1] < '0' || tok[1] > '2' || tok[2] != '.' {
+		return kvOp{}, false
+	}
+	op := kvOp{kind: tok[0], t: int(tok[1] - '0'), pid: -1}
+	rest := tok[3:]
+	var ok bool
+	switch op.kind {
+	case 'c':
+		body, pid, ok1 := kvSplitAt(rest)
+		k, v, ok2 := kvSplit1(body, "=")
+		if !ok1 || !ok2 {
+			return kvOp{}, false
+		}
+		op.pid = pid
+		if op.k, ok = kvHexLower(k); !ok {
+			return kvOp{}, false
+		}
+		if op.v, ok = kvHexLower(v); !ok {
+			return kvOp{}, false
+		}
+	case 'f':
+		body, pid, ok1 := kvSplitAt(rest)
+		if !ok1 {
+			return kvOp{}, false
+		}
+		op.pid = pid
+		if op.k, ok = kvHexLower(body); !ok {
+			return kvOp{}, false
+		}
+	case 'u':
+		body, pid, ok1 := kvSplitAt(rest)
+		ids, nv, ok2 := kvSplit1(body, "=")
+		if !ok1 || !ok2 {
+			return kvOp{}, false
+		}
+		k, v, ok3 := kvSplit1(nv, ":")
+		id, ok4 := kvDec(ids)
+		if !ok3 || !ok4 || id == 0 {
+			return kvOp{}, false
+		}
+		op.id, op.pid = id, pid
+		if op.k, ok = kvHexLower(k); !ok {
+			return kvOp{}, false
+		}
+		if op.v, ok = kvHexLower(v); !ok {
+			return kvOp{}, false
+		}
+	case 'r':
+		body, pid, ok1 := kvSplitAt(rest)
+		ids, k, ok2 := kvSplit1(body, ">")
+		id, ok3 := kvDec(ids)
+		if !ok1 || !ok2 || !ok3 {
+			return kvOp{}, false
+		}
+		op.id, op.pid = id, pid
+		if op.k, ok = kvHexLower(k); !ok {
+			return kvOp{}, false
+		}
+	case 'd', 'x', 'g', 'k', 'v':
+		if op.id, ok = kvDec(rest); !ok {
+			return kvOp{}, false
+		}
+	default:
+		return kvOp{}, false
+	}
+	return op, true
+}
+
+func (s *kvDash) boot() error {
+	s.uuid = []string{dashboards.VerifRootFolderID}
+	s.num = map[string]int{dashboards.VerifRootFolderID: 0}
+	for i := range s.shadow {
+		s.shadow[i] = map[int]*kvDashObj{}
+	}
+	return s.restart()
+}
+
+func (s *kvDash) restart() error {
+	// cmd/startup calls InitDashboards(0); the other orgs' structures are created the same way
+	for _, o := range kvOrgs {
+		if err := dashboards.InitDashboards(o); err != nil {
+			return err
+		}
+	}
+	return nil
+}
+
+func (s *kvDash) ref(n int) string {
+	if n >= 0 && n < len(s.uuid) {
+		return s.uuid[n]
+	}
+	return fmt.Sprintf("00000000-0000-4000-8000-%012d", n) // an id nobody has
+}
+
+func (s *kvDash) number(uuid string) int {
+	if n, ok := s.num[uuid]; ok {
+		return n
+	}
+	return -1
+}
+
+func (s *kvDash) newID(uuid string) int {
+	s.uuid = append(s.uuid, uuid)
+	s.num[uuid] = len(s.uuid) - 1
+	return len(s.uuid) - 1
+}
+
+func kvDashErr(err error) string {
+	if err == nil {
+		return "ok"
+	}
+	m := err.Error()
+	switch {
+	case strings.Contains(m, "name cannot be empty"), strings.Contains(m, "cannot update root folder"), strings.Contains(m, "cannot delete root folder"):
+		return "inv"
+	case strings.Contains(m, "arent folder not found"):
+		return "pnf"
+	case strings.Contains(m, "must be a folder"), strings.Contains(m, "is not a dashboard"):
+		return "nd"
+	case strings.Contains(m, "already exists"):
+		return "ex"
+	case strings.Contains(m, "circular reference"):
+		return "cyc"
+	case strings.Contains(m, "dashboard not found"), strings.Contains(m, "folder not found"), errors.Is(err, os.ErrNotExist):
+		return "nf"
+	}
+	return "err:" + strings.ReplaceAll(m, " ", "_")
+}
+
+// shadow path of a folder: names below the root, joined with '/'
+func (s *kvDash) shadowPath(t, fid int) string {
+	var names []string
+	for i := 0; fid != 0 && i < 1000; i++ {
+		o := s.shadow[t][fid]
+		if o == nil {
+			break
+		}
+		names = append([]string{o.name}, names...)
+		fid = o.parent
+	}
+	return strings.Join(names, "/")
+}
+
+func (s *kvDash) shadowOf(t int) map[string]string {
+	m := map[string]string{}
+	kids := map[int][]string{}
+	for id, o := range s.shadow[t] {
+		kids[o.parent] = append(kids[o.parent], strconv.Itoa(id))
+	}
+	for id, o := range s.shadow[t] {
+		key := fmt.Sprintf("#%d", id)
+		if o.folder {
+			m[key] = fmt.Sprintf("folder name=%q parent=#%d children=[%s]", o.name, o.parent, kvSortedJoin(kids[id], " "))
+		} else {
+			m[key] = fmt.Sprintf("dashboard name=%q payload=%q parent=#%d folderpath=%q favorite=%v", o.name, o.payload, o.parent, s.shadowPath(t, o.parent), o.fav)
+		}
+	}
+	m["#0"] = fmt.Sprintf("folder name=\"Root\" parent=- children=[%s]", kvSortedJoin(kids[0], " "))
+	return m
+}
+
+func (s *kvDash) readAll(t int) (map[string]string, error) {
+	org := kvOrgs[t]
+	lst, err := dashboards.VerifListItems(org)
+	if err != nil {
+		return nil, err
+	}
+	m := map[string]string{}
+	folderIDs := []string{dashboards.VerifRootFolderID}
+	for _, it := range lst.Items {
+		key := fmt.Sprintf("#%d", s.number(it.ID))
+		if it.Type == dashboards.ItemTypeFolder {
+			folderIDs = append(folderIDs, it.ID)
+			continue
+		}
+		d, err := dashboards.VerifGetDashboard(it.ID, org)
+		if err != nil {
+			m[key] = fmt.Sprintf("dashboard listed (name=%q) but get fails: %v", it.Name, kvDashErr(err))
+			continue
+		}
+		name, _ := d["name"].(string)
+		desc, _ := d["description"].(string)
+		fav, _ := d["isFavorite"].(bool)
+		fid, fpath := "?", "?"
+		if f, ok := d["folder"].(map[string]interface{}); ok {
+			fid, _ = f["id"].(string)
+			fpath, _ = f["path"].(string)
+		}
+		v := fmt.Sprintf("dashboard name=%q payload=%q parent=#%d folderpath=%q favorite=%v", name, desc, s.number(fid), fpath, fav)
+		if it.Name != name || s.number(it.ParentID) != s.number(fid) || it.IsStarred != fav || it.Description != desc {
+			v += fmt.Sprintf(" BUT list says name=%q parent=#%d favorite=%v payload=%q", it.Name, s.number(it.ParentID), it.IsStarred, it.Description)
+		}
+		m[key] = v
+	}
+	for _, fid := range folderIDs {
+		c, err := dashboards.VerifGetFolderContents(fid, org)
+		key := fmt.Sprintf("#%d", s.number(fid))
+		if err != nil {
+			m[key] = "folder listed but contents fail: " + kvDashErr(err)
+			continue
+		}
+		var kids []string
+		for _, ch := range c.Items {
+			kids = append(kids, strconv.Itoa(s.number(ch.ID)))
+		}
+		parent := "-"
+		if n := len(c.Breadcrumbs); n >= 2 {
+			parent = fmt.Sprintf("#%d", s.number(c.Breadcrumbs[n-2].ID))
+		}
+		m[key] = fmt.Sprintf("folder name=%q parent=%s children=[%s]", c.Folder.Name, parent, kvSortedJoin(kids, " "))
+	}
+	return m, nil
+}
+
+func (s *kvDash) owner(id int) int {
+	for t := range s.shadow {
+		if s.shadow[t][id] != nil {
+			return t
+		}
+	}
+	return -1
+}
+
+func (s *kvDash) removeTree(t, id int) {
+	for cid, o := range s.shadow[t] {
+		if o.parent == id && cid != id {
+			s.removeTree(t, cid)
+		}
+	}
+	delete(s.shadow[t], id)
+}
+
+func (s *kvDash) apply(op kvOp) string {
+	org := kvOrgs[op.t]
+	sh := s.shadow[op.t]
+	pidRef := ""
+	if op.pid >= 0 {
+		pidRef = s.ref(op.pid)
+	}
+	parentNum := op.pid
+	if parentNum < 0 {
+		parentNum = 0
+	}
+	switch op.kind {
+	case 'c':
+		res, err := dashboards.VerifCreateDashboard(op.k, op.v, pidRef, org)
+		if err != nil {
+			return kvDashErr(err)
+		}
+		for id := range res {
+			n := s.newID(id)
+			sh[n] = &kvDashObj{name: op.k, payload: op.v, parent: parentNum}
+			return fmt.Sprintf("ok:%d", n)
+		}
+		return "err:no-id"
+	case 'f':
+		id, err := dashboards.VerifCreateFolder(op.k, pidRef, org)
+		if err != nil {
+			return kvDashErr(err)
+		}
+		n := s.newID(id)
+		sh[n] = &kvDashObj{folder: true, name: op.k, parent: parentNum}
+		return fmt.Sprintf("ok:%d", n)
+	case 'u':
+		details := map[string]interface{}{"name": op.k, "description": op.v}
+		if op.pid >= 0 {
+			details["folder"] = map[string]interface{}{"id": pidRef}
+		}
+		err := dashboards.VerifUpdateDashboard(s.ref(op.id), op.k, details, org)
+		if err == nil {
+			o := sh[op.id]
+			switch {
+			case o == nil:
+				kvCurRun.fail("update-accepted-for-unknown-id", fmt.Sprintf("updateDashboard(#%d) of org %d succeeded although the org holds no such object", op.id, org))
+				kvCurRun.tainted[op.t] = true
+			case o.folder:
+				kvCurRun.fail("dashboard-update-accepted-for-folder-id", fmt.Sprintf("updateDashboard(#%d, name %q) succeeded on a FOLDER id: the folder is renamed and a details file is written for it", op.id, op.k))
+				kvCurRun.tainted[op.t] = true
+			default:
+				o.name, o.payload, o.fav = op.k, op.v, false // the client's details replace the stored ones (no isFavorite sent)
+				if op.pid >= 0 {
+					o.parent = op.pid
+				}
+			}
+		}
+		return kvDashErr(err)
+	case 'r':
+		err := dashboards.VerifUpdateFolder(s.ref(op.id), op.k, pidRef, org)
+		if err == nil {
+			o := sh[op.id]
+			switch {
+			case o == nil:
+				kvCurRun.fail("update-accepted-for-unknown-id", fmt.Sprintf("updateFolder(#%d) of org %d succeeded although the org holds no such object", op.id, org))
+				kvCurRun.tainted[op.t] = true
+			case !o.folder:
+				kvCurRun.fail("folder-update-accepted-for-dashboard-id", fmt.Sprintf("updateFolder(#%d, name %q) succeeded on a DASHBOARD id: the folder structure is changed, the dashboard's own details are not", op.id, op.k))
+				kvCurRun.tainted[op.t] = true
+			default:
+				if op.k != "" {
+					o.name = op.k
+				}
+				if op.pid >= 0 {
+					o.parent = op.pid
+				}
+			}
+		}
+		return kvDashErr(err)
+	case 'd':
+		err := dashboards.VerifDeleteDashboard(s.ref(op.id), org)
+		if err == nil {
+			delete(sh, op.id)
+		}
+		return kvDashErr(err)
+	case 'x':
+		err := dashboards.VerifDeleteFolder(s.ref(op.id), org)
+		if err == nil {
+			s.removeTree(op.t, op.id)
+		}
+		return kvDashErr(err)
+	case 'v':
+		fav, err := dashboards.VerifToggleFavorite(s.ref(op.id), org)
+		if err != nil {
+			return kvDashErr(err)
+		}
+		if ow := s.owner(op.id); ow >= 0 && !s.shadow[ow][op.id].folder {
+			s.shadow[ow][op.id].fav = !s.shadow[ow][op.id].fav // the audit then shows whose read changed
+		}
+		if fav {
+			return "1"
+		}
+		return "0"
+	case 'g':
+		d, err := dashboards.VerifGetDashboard(s.ref(op.id), org)
+		if err != nil {
+			return kvDashErr(err)
+		}
+		if ow := s.owner(op.id); ow >= 0 && ow != op.t {
+			kvCurRun.fail("foreign-tenant-read", fmt.Sprintf("getDashboard(#%d) asked by org %d returns the dashboard of org %d (details files are addressed by id only)", op.id, org, kvOrgs[ow]))
+		}
+		name, _ := d["name"].(string)
+		desc, _ := d["description"].(string)
+		fav, _ := d["isFavorite"].(bool)
+		fid, fname, fpath, crumbs := -1, "", "", []string{}
+		if f, ok := d["folder"].(map[string]interface{}); ok {
+			if x, ok := f["id"].(string); ok {
+				fid = s.number(x)
+			}
+			fname, _ = f["name"].(string)
+			fpath, _ = f["path"].(string)
+			switch bc := f["breadcrumbs"].(type) {
+			case []interface{}:
+				for _, b := range bc {
+					if bm, ok := b.(map[string]interface{}); ok {
+						x, _ := bm["id"].(string)
+						crumbs = append(crumbs, strconv.Itoa(s.number(x)))
+					}
+				}
+			case []dashboards.Breadcrumb:
+				for _, b := range bc {
+					crumbs = append(crumbs, strconv.Itoa(s.number(b.ID)))
+				}
+			}
+		}
+		f := 0
+		if fav {
+			f = 1
+		}
+		return fmt.Sprintf("%s:%s:%d:%s:%s:%s:%d", kvHex(name), kvHex(desc), fid, kvHex(fname), kvHex(fpath), strings.Join(crumbs, "."), f)
+	case 'k':
+		c, err := dashboards.VerifGetFolderContents(s.ref(op.id), org)
+		if err != nil {
+			return kvDashErr(err)
+		}
+		ty := func(t string) string {
+			if t == dashboards.ItemTypeFolder {
+				return "F"
+			}
+			return "D"
+		}
+		var kids, crumbs []string
+		for _, ch := range c.Items {
+			kids = append(kids, fmt.Sprintf("%d/%s/%s/%d", s.number(ch.ID), kvHex(ch.Name), ty(ch.Type), ch.ChildCount))
+		}
+		for _, b := range c.Breadcrumbs {
+			crumbs = append(crumbs, strconv.Itoa(s.number(b.ID)))
+		}
+		return fmt.Sprintf("%s/%s[%s]^%s", kvHex(c.Folder.Name), ty(c.Folder.Type), strings.Join(kids, ","), strings.Join(crumbs, "."))
+	case 'l':
+		lst, err := dashboards.VerifListItems(org)
+		if err != nil {
+			return kvDashErr(err)
+		}
+		var rows []string
+		for _, it := range lst.Items {
+			ty, parent, f := "D", "-", 0
+			if it.Type == dashboards.ItemTypeFolder {
+				ty = "F"
+			}
+			if it.ParentID != "" {
+				parent = strconv.Itoa(s.number(it.ParentID))
+			}
+			if it.IsStarred {
+				f = 1
+			}
+			rows = append(rows, fmt.Sprintf("%d/%s/%s/%s/%s/%s/%d/%s", s.number(it.ID), kvHex(it.Name), ty, parent, kvHex(it.ParentName), kvHex(it.FullPath), f, kvHex(it.Description)))
+		}
+		return "[" + kvSortedJoin(rows, ",") + "]"
+	}
+	return "bad-op"
+}
+
+func genDashLine(r *rand.Rand) string {
+	names := []string{"a", "ab", "A", "a b", "ünï", "日本", "x/y", "q.1", "\"q\"", "..", "a\nb", "Root", "%2e"}
+	if r.Intn(10) == 0 {
+		names = append(names, kvLongName(r, "dash"))
+	}
+	np := 2 + r.Intn(4)
+	r.Shuffle(len(names), func(i, j int) { names[i], names[j] = names[j], names[i] })
+	pool := names[:np]
+	if r.Intn(20) == 0 {
+		pool = append(pool, "")
+	}
+	nt := []int{1, 1, 2, 2, 3}[r.Intn(5)]
+	tperm := r.Perm(3)[:nt]
+	nops := 1 + r.Intn(40)
+	if r.Intn(4) == 0 {
+		nops = 1 + r.Intn(8)
+	}
+	pR := []int{0, 3, 8}[r.Intn(3)]
+	pForeign := []int{0, 0, 6, 15}[r.Intn(4)] // % of id references that ignore tenant and type
+	// generator-side bookkeeping (a guess of what exists; the real ids are assigned by the run)
+	type gobj struct {
+		t      int
+		folder bool
+	}
+	objs := []gobj{{-1, true}} // 0 = root
+	var ops []string
+	pickID := func(t int, wantFolder bool, allowRoot bool) int {
+		if r.Intn(100) < pForeign || len(objs) == 1 {
+			if r.Intn(6) == 0 {
+				return len(objs) + r.Intn(3) // not created (yet)
+			}
+			return r.Intn(len(objs))
+		}
+		var c []int
+		for i, o := range objs {
+			if i == 0 {
+				if wantFolder && allowRoot {
+					c = append(c, 0)
+				}
+				continue
+			}
+			if o.t == t && o.folder == wantFolder {
+				c = append(c, i)
+			}
+		}
+		if len(c) == 0 {
+			return r.Intn(len(objs) + 1)
+		}
+		return c[r.Intn(len(c))]
+	}
+	for j := 0; j < nops; j++ {
+		t := tperm[r.Intn(nt)]
+		if r.Intn(100) < pR {
+			ops = append(ops, "R")
+			continue
+		}
+		name := kvHex(kvPick(r, pool))
+		at := func() string {
+			if r.Intn(3) == 0 {
+				return ""
+			}
+			return fmt.Sprintf("@%d", pickID(t, true, true))
+		}
+		x := r.Intn(100)
+		switch {
+		case x < 18:
+			ops = append(ops, fmt.Sprintf("c%d.%s=%s%s", t, name, kvHex(kvPick(r, kvVals)), at()))
+			objs = append(objs, gobj{t, false}) // may fail: the numbering of the run decides
+		case x < 32:
+			ops = append(ops, fmt.Sprintf("f%d.%s%s", t, name, at()))
+			objs = append(objs, gobj{t, true})
+		case x < 44:
+			id := pickID(t, false, false)
+			if id == 0 {
+				id = 1
+			}
+			ops = append(ops, fmt.Sprintf("u%d.%d=%s:%s%s", t, id, name, kvHex(kvPick(r, kvVals)), []string{"", "", at()}[r.Intn(3)]))
+		case x < 56:
+			nm := name
+			if r.Intn(3) == 0 {
+				nm = ""
+			}
+			ops = append(ops, fmt.Sprintf("r%d.%d>%s%s", t, pickID(t, true, false), nm, []string{"", at()}[r.Intn(2)]))
+		case x < 63:
+			ops = append(ops, fmt.Sprintf("d%d.%d", t, pickID(t, false, false)))
+		case x < 70:
+			ops = append(ops, fmt.Sprintf("x%d.%d", t, pickID(t, true, false)))
+		case x < 80:
+			ops = append(ops, fmt.Sprintf("g%d.%d", t, pickID(t, false, false)))
+		case x < 88:
+			ops = append(ops, fmt.Sprintf("k%d.%d", t, pickID(t, true, true)))
+		case x < 94:
+			ops = append(ops, fmt.Sprintf("l%d", t))
+		default:
+			ops = append(ops, fmt.Sprintf("v%d.%d", t, pickID(t, false, false)))
+		}
+	}
+	return "kv dash " + strings.Join(ops, " ")
 }
